@@ -513,6 +513,12 @@ def gen_C03(rng, tier):
             lines.append(""); owner.append(None)
         good = build_case(gen.render_lines(lines), [])
         groups.append(group("canonical", "c03_accept", [good]))
+        # "every canonical well-formed file is accepted" - however it is terminated and however the bytes arrive: CRLF, no final
+        # newline, one byte at a time, cut in two anywhere, cut in random pieces
+        for _ in range(2):
+            d2 = gen.render_lines(lines, eol=rng.choice(["\r\n", "\r\n", "\n"]), final_nl=rng.random() < 0.7)
+            ch = gen.composition(rng, d2, rng.choice(["bytes", "two", "two", "rand"]))
+            groups.append(group("canonical-crlf-chunked", "c03_accept", [build_case(d2, [], ch)]))
         for name, new in corruptions(rng, f, lines, owner):
             groups.append(group("corrupt:" + name.split("+")[0].split("-")[0] + ":" + name, "c03_refuse",
                                 [build_case(gen.render_lines(new), [])], params={"what": name}))
